@@ -7,7 +7,7 @@
 //! env:   ROTO_BIN = the `roto` binary built from the repository under test
 //!        (without it the CLI part is reported as a broken correspondence).
 
-use roto::{FileSpec, FileTree, NoCtx, Runtime, SourceFile, Verdict, library};
+use roto::{Context, Ctx, FileSpec, FileTree, NoCtx, Runtime, SourceFile, Verdict, library};
 use rotov_harness::driver::{Driver, hex};
 use rotov_harness::worker::{Ended, run_batches};
 use rotov_harness::{Prng, Report};
@@ -31,6 +31,17 @@ fn runtime() -> Runtime<NoCtx> {
         }
     })
     .expect("runtime with emit")
+}
+
+/// The context of the second runtime: `Package<Ctx<C>>::run_tests(ctx)` is a sibling entry
+/// point of `Package<NoCtx>::run_tests()` and must aggregate in the same way.
+#[derive(Clone, Context)]
+struct HostCtx {
+    pub k: i32,
+}
+
+fn runtime_ctx() -> Runtime<Ctx<HostCtx>> {
+    runtime().with_context_type::<HostCtx>().expect("runtime with context")
 }
 
 /// Run `f` with stdout pointed at /dev/null (the runner prints a line per test).
@@ -595,6 +606,23 @@ fn api_case(rep: &mut Report, drv: &mut Model, seed: u64, idx: u64) {
         }
         Err(_) => (Err(()), vec![]),
     };
+    // the sibling entry point: the same package compiled for a runtime with a context
+    let (r4, l4) = if all_tests.len() <= 64 {
+        let rtc = runtime_ctx();
+        match quiet(|| file_tree(&case).compile(&rtc)) {
+            Ok(mut pkgc) => {
+                take_log();
+                let r = quiet(|| pkgc.run_tests(HostCtx { k: 7 }));
+                (Some(r), take_log())
+            }
+            Err(e) => {
+                rep.mismatch("generated script does not compile for a runtime with a context", json!({"case": cj, "error": e.to_string()}));
+                (None, vec![])
+            }
+        }
+    } else {
+        (None, vec![])
+    };
     let all_accept = all_tests.iter().all(|(_, t)| t.accept);
     // discovery per module: how many blocks each module declares and how many of them ran
     let per_module: BTreeMap<String, (usize, usize)> = case
@@ -640,6 +668,39 @@ fn api_case(rep: &mut Report, drv: &mut Model, seed: u64, idx: u64) {
             "test order differs between runs",
             json!({"case": cj, "first": l1, "second": l2}),
         );
+    }
+    if let Some(r4) = r4 {
+        rep.hist("entry points", "NoCtx and Ctx");
+        match (r4.is_ok(), all_accept) {
+            (true, false) => rep.violation(
+                "Package<Ctx<C>>::run_tests returned Ok although a test rejected",
+                "run_tests (context runtime) ok despite reject",
+                json!({"witness": witness, "context_result": format!("{r4:?}"), "context_log": l4}),
+            ),
+            (false, true) => rep.violation(
+                "Package<Ctx<C>>::run_tests returned Err although every test accepted",
+                "run_tests (context runtime) err without reject",
+                json!({"witness": witness, "context_result": format!("{r4:?}"), "context_log": l4}),
+            ),
+            _ => {}
+        }
+        let mut sorted_ids: Vec<u32> = l4.clone();
+        sorted_ids.sort();
+        let mut want_ids: Vec<u32> = all_tests.iter().map(|(_, t)| t.id).collect();
+        want_ids.sort();
+        if sorted_ids != want_ids {
+            rep.violation(
+                "Package<Ctx<C>>::run_tests did not run every test block exactly once",
+                "run_tests (context runtime) blocks not run exactly once",
+                json!({"witness": witness, "context_log": l4}),
+            );
+        } else if l4 != l1 && l1.len() == all_tests.len() {
+            rep.violation(
+                "the run order differs between the runtime without and with a context (order must depend on the names only)",
+                "test order differs between runtimes",
+                json!({"witness": witness, "context_log": l4}),
+            );
+        }
     }
     if l1 != l3 || r1 != r3 {
         rep.violation(
